@@ -617,6 +617,25 @@ func (h H) unlinkBeforeRemove(rule string) {
 		}
 	}
 	h.C.Floor(rule+" (segment removals in RemoveLTE/RemoveGTE)", n, 2)
+	// the helpers do what their callers rely on: connect links both ways,
+	// disconnect clears both links (RemoveLTE needs s2.prev, RemoveGTE s1.next)
+	for _, w := range []struct {
+		spec  string
+		wants map[string]string
+	}{
+		{"log:connect", map[string]string{"$0.next": "$1", "$1.prev": "$0"}},
+		{"log:disconnect", map[string]string{"$0.next": "nil", "$1.prev": "nil"}},
+	} {
+		fn := h.fn(w.spec)
+		if fn == nil {
+			continue
+		}
+		for addr, val := range w.wants {
+			addr, val := addr, val
+			ok, why := h.storesOnEveryPath(fn, addr, func(v string, _ *ssa.Store) bool { return v == val })
+			h.C.Check(rule+" link-helpers", h.name(fn)+" "+addr+" := "+val, ok, h.fpos(fn), "a chain helper does not set "+addr+" := "+val+" on every path (the caller that removes the other end keeps a link to a closed, deleted segment): "+why)
+		}
+	}
 }
 
 func fieldName(fa *ssa.FieldAddr) string {
